@@ -158,7 +158,8 @@ DUMMY = {"op": "union", "a": {"name": "x", "kind": "i", "labels": []}, "b": {"na
 
 class C14(Prop):
     id = "C14"
-    theorems = ["labelToInt_intCast", "ixToRaw_rawToIx", "dsTake_perdim_commutes", "fullslice_both_modes", "DSV.setItem_shared", "DSV.takeAxisPosDs_spec", "DSV.takeAxisPosDs_ok", "DSV.sortAxisDs_spec", "DSV.reindexAxisDs_spec", "DSV.takeDs_spec", "DSV.takeDs_sameData", "DSV.firstDraft_counterexample"]
+    theorems = ["labelToInt_intCast", "ixToRaw_rawToIx", "dsTake_perdim_commutes", "fullslice_both_modes", "DSV.setItem_shared", "DSV.takeAxisPosDs_spec", "DSV.takeAxisPosDs_ok", "DSV.sortAxisDs_spec", "DSV.reindexAxisDs_spec", "DSV.takeDs_spec", "DSV.takeDs_sameData", "DSV.firstDraft_counterexample", "DSV.applyAxis_spec", "DSV.applyAxis_good", "DSV.reduceDs_spec", "DSV.reduceDs_ok", "DSV.binaryOpDs_spec", "DSV.binaryOpDs_scalar_spec",
+                "DSV.binaryOpDs_other", "DSV.stackDs_spec", "DSV.concatenateDs_spec", "DSV.concatenateDs_lacking", "DSV.copyDs_spec"]
     rule = ("Datasets of 1-4 variables whose dimension sets overlap partially (some variables lack the operated dimension, "
             "some are 0-d), int/float/str labels in any order, variables and axes carrying metadata; take / .ix / .loc / .sel / "
             ".isel / .nloc with scalar, list, mask and slice indices given as dict, keyword, axis= or tuple, names=, tol=, "
